@@ -66,6 +66,8 @@ def std_variants(tier: str, noop: bool) -> List[Dict[str, Any]]:
     cv = _v("memory", "memory", ["one"], "from", 0.25)
     cv["cells"] = True
     v.append(cv)
+    # dds and the callee modules imported by statements inside the function bodies
+    v.append(_v("local", "local", ["split"], "local", 0.12))
     if tier == "thorough":
         for x in v:
             x["frac"] = 1.0
@@ -78,7 +80,8 @@ def std_variants(tier: str, noop: bool) -> List[Dict[str, Any]]:
 def small_variants(tier: str) -> List[Dict[str, Any]]:
     v = [_v("local", "local", ["one"], "from", 1.0),
          _v("local", "local+lru", ["split"], "from_as", 0.5),
-         _v("memory", "memory", ["one"], "from", 0.5)]
+         _v("memory", "memory", ["one"], "from", 0.5),
+         _v("local", "local", ["split"], "local", 0.25)]
     if tier == "thorough":
         for x in v:
             x["frac"] = 1.0
@@ -154,7 +157,10 @@ FAMILY: Dict[str, Dict[str, Any]] = {
              "when the failing body is actually reached (the specification predicts the raise)"),
     "C11": dict(
         shapes=lambda tier: shp.illformed_shapes(tier), plans=lambda tier: [["eval"], ["evalB", "eval2"], ["evalB", "eval"]],
-        variants=lambda tier: [_v("local", "local", ["one"], "from", 1.0), _v("memory", "memory", ["half"], "from", 0.5 if tier == "quick" else 1.0)],
+        variants=lambda tier: [_v("local", "local", ["one"], "from", 1.0), _v("memory", "memory", ["half"], "from", 0.5 if tier == "quick" else 1.0),
+                               # dds and the callee modules imported by statements inside the function bodies
+                               _v("local", "local", ["one"], "local", 0.34 if tier == "quick" else 1.0),
+                               _v("memory", "memory", ["half"], "local", 0.34 if tier == "quick" else 1.0)],
         oracle=oracles.c11, design_cfg="DdsEval_c11.cfg",
         nontrivial=lambda hist: any(r["op"] == "eval" and r["err"] not in ("", []) for r in hist),
         rule="one evaluation of an ill-formed shape (overlapping kept paths in every order and placement, call cycles of "
